@@ -75,7 +75,7 @@ def run(ctx, mod, repo):
                     report['mutants'].append({'name': 'seeded:' + sid, 'status': 'stale'})
                     ctx.ok('MUT', 'stale:seeded:' + sid, '', 'seeded change no longer applies to the current tree: skipped, not counted', nontrivial=False)
                     continue
-                subprocess.run(['git', 'apply', pp], cwd=scratch, check=True)
+                subprocess.run(['git', 'apply', pp], cwd=scratch, check=True, capture_output=True)
                 try:
                     d, info = extract(scratch)
                     sub = Ctx(ctx.prop, Program(d), 'thorough')
@@ -84,7 +84,7 @@ def run(ctx, mod, repo):
                 except CheckBroken as e:
                     hits = []
                 finally:
-                    subprocess.run(['git', 'apply', '-R', pp], cwd=scratch, check=True)
+                    subprocess.run(['git', 'apply', '-R', pp], cwd=scratch, check=True, capture_output=True)
                 report['mutants'].append({'name': 'seeded:' + sid, 'reported': hits})
                 if hits:
                     ctx.ok('MUT', 'caught:seeded:' + sid, '', 'seeded change %s is reported by %s' % (sid, hits[:3]), nontrivial=True)
@@ -102,7 +102,7 @@ def run(ctx, mod, repo):
                     report['mutants'].append({'name': 'benign:' + name, 'status': 'stale'})
                     ctx.ok('BEN', 'stale:' + name, '', 'behaviour-preserving variant no longer applies to the current tree: skipped', nontrivial=False)
                     continue
-                subprocess.run(['git', 'apply', pp], cwd=scratch, check=True)
+                subprocess.run(['git', 'apply', pp], cwd=scratch, check=True, capture_output=True)
                 try:
                     d, info = extract(scratch)
                     sub = Ctx(ctx.prop, Program(d), 'thorough')
@@ -111,7 +111,7 @@ def run(ctx, mod, repo):
                 except CheckBroken as e:
                     new = ['<does not compile: %s>' % str(e)[-200:]]
                 finally:
-                    subprocess.run(['git', 'apply', '-R', pp], cwd=scratch, check=True)
+                    subprocess.run(['git', 'apply', '-R', pp], cwd=scratch, check=True, capture_output=True)
                 report['mutants'].append({'name': 'benign:' + name, 'new_open': new})
                 if new:
                     alarms.append((name, new[:4]))
